@@ -67,10 +67,10 @@ ASSUMPTIONS = [
 ]
 
 FAULT_CLASSES = ['EA', 'EAB', 'EABC', 'EX', 'EMI', 'KeyError', 'ValueError',
-                 'IndexError', 'EAB~', 'EX~', 'ETY', 'TypeError']
+                 'IndexError', 'EAB~', 'EX~', 'ETY', 'TypeError', 'EFALSY']
 HANDLER_POOL = ['EA', 'EAB', 'EABC', 'EX', 'EMI', 'KeyError', 'LookupError',
                 'ValueError', 'IndexError', 'Exception', 'TypeError', 'ETY',
-                'NotFound']
+                'NotFound', 'EFALSY']
 PLAIN = {'error_type': 'OUTER', 'X_EA': E.EA, 'X_EAB': E.EAB,
          'X_EABC': E.EABC, 'X_EX': E.EX, 'X_EMI': E.EMI, 'X_ETY': E.ETY,
          'SEQ2': ['p', 'q'], 'SEQ1': ['p'], 'SEQ0': []}
@@ -161,7 +161,7 @@ class Gen:
             s = self.site('NX')
             self.script[s] = {'rot': [{'exc': c} for c in r.sample(
                 ['EA', 'EAB', 'EABC', 'EX', 'EMI', 'ValueError', 'EAB~', 'EX~',
-                 'ETY', 'TypeError'],
+                 'ETY', 'TypeError', 'EFALSY'],
                 r.choice([1, 2, 3]))]}
             t = {'site': s}
         return {'k': 'raise', 'type': t,
